@@ -155,8 +155,8 @@ def check(ctx: Ctx, col: Collector, tier: str) -> None:
     col.touched(cfi)
     couts = ctx.interp(cfi).run_function(cfi, {"src_dir_path": Sym("src"), "out_dir_path": Sym("out")})
     paths = {repr(e.args[0]) for o in couts for e in o.effects if e.kind == "call" and e.target.endswith(".to_json_file") and e.args}
-    want = "{<src.stem>}__api.json"
-    good = len(paths) == 1 and all(re.fullmatch(r"\.joinpath\(<out>, f'\{<src\.stem>\}__api\.json'\)|Div\(<out>, f'\{<src\.stem>\}__api\.json'\)", p) for p in paths)
+    # the whole name of the source directory (Path.name; Path.stem would cut a name like 'mylib-2.31.0' at its last dot)
+    good = len(paths) == 1 and all(re.fullmatch(r"\.joinpath\(<out>, f'\{<src\.name>\}__api\.json'\)|Div\(<out>, f'\{<src\.name>\}__api\.json'\)", p) for p in paths)
     (col.ok if good else col.bad)("C10.API-NAME", f"{CLI}::_run_stub_generator::api-file", repo.loc(CLI, cfi.node), f"{sorted(paths)}",
                                   *([] if good else [f"the API file path is {sorted(paths)}, not out / '<source-directory-name>__api.json'"]))
     resolved = repo.function(CLI, "cli")
@@ -269,8 +269,23 @@ def check(ctx: Ctx, col: Collector, tier: str) -> None:
             if len(calls) != 1 or calls[0].args[-1] != init or not (isinstance(o.env.get("created_module_paths"), App) and o.env["created_module_paths"].func == "_create_outside_package_class"):
                 good = False
     (col.ok if good else col.bad)("C10.WRITE-MODE", f"{GENSTUBS}::create_stub_files::created-paths-threaded", repo.loc(GENSTUBS, sfi.node),
-                                  "the created-paths set starts empty and each call receives the set returned by the previous call" if good else "threading not recognised",
+                                  "the created-paths set holds nothing but paths written in this run and each call receives the set returned by the previous call" if good else "threading not recognised",
                                   *([] if good else ["the set of already created placeholder files is not threaded from one class to the next (files are overwritten or appended wrongly)"]))
+    # the module stubs written in this run are registered in the same set, so that a placeholder never truncates one of them
+    mloops = find_loops(sit, sfi, lambda v: sym_is(v, "stubs_data"))
+    registered = False
+    if len(mloops) == 1:
+        mnode, _, mel, mentry = mloops[0]
+        el = ListV((Sym("module_dir"), Sym("module_name"), Sym("module_text"), Const(False)), kind="tuple")
+        for o in run_body(sit, mnode, mentry.clone(), el):
+            adds = [e for e in new_effects(o, mentry) if e.kind in ("mutate", "call") and e.target == "created_module_paths.add"]
+            if adds and any("out_path" in repr(a.args[0]) for a in adds if a.args):
+                registered = True
+    (col.ok if registered else col.bad)("C10.WRITE-MODE", f"{GENSTUBS}::create_stub_files::module-stubs-registered", repo.loc(GENSTUBS, sfi.node),
+                                        "the path of a written module stub (relative to the output directory) is added to the created-paths set the placeholder writer consults" if registered
+                                        else "no registration of module stub paths",
+                                        *([] if registered else ["the stub of a module is not registered as written: the placeholder stub of something taken for a class of another package (a NewType declared "
+                                                                 "in that module) has the same path, is opened with 'w' and replaces the module's declarations"]))
     # module stubs are opened "w"
     modes = {e.args[0].v for o in souts for e in o.effects if e.kind == "call" and e.target.endswith(".open") and e.args and isinstance(e.args[0], Const)}
     (col.ok if modes == {"w"} else col.bad)("C10.WRITE-MODE", f"{GENSTUBS}::create_stub_files::module-stub-mode", repo.loc(GENSTUBS, sfi.node), f"module stubs opened with {sorted(modes)}",
